@@ -36,7 +36,7 @@ func main() {
 	list := flag.Bool("list", false, "list loops")
 	k := flag.Int("k", -1, "loop index to mutate")
 	limit := flag.Int("limit", 2, "iterations before the loop leaves")
-	mode := flag.String("mode", "break", "break: the loop leaves after -limit iterations; skip: the loop skips iteration number -limit+1; lit: integer literal number k is incremented; errnil: the k-th `return …, err` returns nil instead; cmp: the k-th strict/non-strict ordered comparison is toggled (< <-> <=, > <-> >=)")
+	mode := flag.String("mode", "break", "break: the loop leaves after -limit iterations; skip: the loop skips iteration number -limit+1; lit: integer literal number k is incremented; errnil: the k-th `return …, err` returns nil instead; cmp: the k-th strict/non-strict ordered comparison is toggled (< <-> <=, > <-> >=); del: the k-th assignment / call statement is dropped (++ becomes --); neg: the k-th if condition is negated; andor: && <-> ||; eq: == <-> !=; arith: + <-> -")
 	dst := flag.String("dst", "", "output directory")
 	flag.Parse()
 
@@ -52,6 +52,7 @@ func main() {
 		node ast.Node
 	}
 	var lits, errRets, cmps []site
+	var dels, negs, andors, eqs, ariths []site
 	for _, fname := range files {
 		if strings.HasSuffix(fname, "_test.go") {
 			continue
@@ -91,7 +92,23 @@ func main() {
 					switch x.Op {
 					case token.LSS, token.LEQ, token.GTR, token.GEQ:
 						cmps = append(cmps, site{fname, fd.Name.Name, fset.Position(x.Pos()), f, x})
+					case token.LAND, token.LOR:
+						andors = append(andors, site{fname, fd.Name.Name, fset.Position(x.Pos()), f, x})
+					case token.EQL, token.NEQ:
+						eqs = append(eqs, site{fname, fd.Name.Name, fset.Position(x.Pos()), f, x})
+					case token.ADD, token.SUB:
+						ariths = append(ariths, site{fname, fd.Name.Name, fset.Position(x.Pos()), f, x})
 					}
+				case *ast.IfStmt:
+					negs = append(negs, site{fname, fd.Name.Name, fset.Position(x.Pos()), f, x})
+				case *ast.AssignStmt:
+					if x.Tok != token.DEFINE {
+						dels = append(dels, site{fname, fd.Name.Name, fset.Position(x.Pos()), f, x})
+					}
+				case *ast.IncDecStmt:
+					dels = append(dels, site{fname, fd.Name.Name, fset.Position(x.Pos()), f, x})
+				case *ast.ExprStmt:
+					dels = append(dels, site{fname, fd.Name.Name, fset.Position(x.Pos()), f, x})
 				}
 				switch x := n.(type) {
 				case *ast.BlockStmt:
@@ -105,13 +122,8 @@ func main() {
 			})
 		}
 	}
-	if *mode == "lit" || *mode == "errnil" || *mode == "cmp" {
-		sites := lits
-		if *mode == "errnil" {
-			sites = errRets
-		} else if *mode == "cmp" {
-			sites = cmps
-		}
+	if m, ok := map[string][]site{"lit": lits, "errnil": errRets, "cmp": cmps, "del": dels, "neg": negs, "andor": andors, "eq": eqs, "arith": ariths}[*mode]; ok {
+		sites := m
 		if *list {
 			for i, st := range sites {
 				fmt.Printf("%d %s:%d %s %s\n", i, filepath.Base(st.file), st.pos.Line, st.fn, *mode)
@@ -136,7 +148,23 @@ func main() {
 		case *ast.ReturnStmt:
 			x.Results[len(x.Results)-1] = ast.NewIdent("nil")
 		case *ast.BinaryExpr:
-			x.Op = map[token.Token]token.Token{token.LSS: token.LEQ, token.LEQ: token.LSS, token.GTR: token.GEQ, token.GEQ: token.GTR}[x.Op]
+			x.Op = map[token.Token]token.Token{token.LSS: token.LEQ, token.LEQ: token.LSS, token.GTR: token.GEQ, token.GEQ: token.GTR,
+				token.LAND: token.LOR, token.LOR: token.LAND, token.EQL: token.NEQ, token.NEQ: token.EQL, token.ADD: token.SUB, token.SUB: token.ADD}[x.Op]
+		case *ast.IfStmt:
+			x.Cond = &ast.UnaryExpr{Op: token.NOT, X: &ast.ParenExpr{X: x.Cond}}
+		case *ast.AssignStmt:
+			// the statement is deleted: `a = b` becomes `_ = b` (operands stay used, the build keeps working), `a op= b` likewise
+			for i := range x.Lhs {
+				x.Lhs[i] = ast.NewIdent("_")
+			}
+			if x.Tok != token.ASSIGN {
+				x.Tok = token.ASSIGN
+			}
+		case *ast.IncDecStmt:
+			x.Tok = map[token.Token]token.Token{token.INC: token.DEC, token.DEC: token.INC}[x.Tok]
+		case *ast.ExprStmt:
+			// a call statement is dropped: replaced by a call of an empty function literal
+			x.X = &ast.CallExpr{Fun: &ast.FuncLit{Type: &ast.FuncType{Params: &ast.FieldList{}}, Body: &ast.BlockStmt{}}}
 		}
 		var buf bytes.Buffer
 		if err := format.Node(&buf, fset, st.f); err != nil {
